@@ -34,13 +34,14 @@ fn any_cubic() -> Cubic {
     c
 }
 
-// @harness cubic_new_establishes_floor props=C12 tier=quick kind=proof fn="Cubic::new" desc="default configuration, MTU with 2*MTU <= initial window: new() reports at least two datagrams"
+// @harness cubic_new_establishes_floor props=C12 tier=quick kind=proof fn="Cubic::new" desc="for every configured initial window and every MTU >= 1200: new() reports at least two datagrams"
 #[cfg_attr(kani, kani::proof)]
 #[cfg_attr(verif_replay, test)]
 fn cubic_new_establishes_floor() {
     let mtu: u16 = vk::any();
-    let cfg = CubicConfig::default();
-    vk::assume(mtu >= 1200 && 2 * (mtu as u64) <= cfg.initial_window);
+    let mut cfg = CubicConfig::default();
+    cfg.initial_window = vk::any();
+    vk::assume(mtu >= 1200);
     let c = Cubic::new(Arc::new(cfg), vk::instant(5), mtu);
     assert!(c.window() >= 2 * (mtu as u64));
 }
